@@ -166,6 +166,136 @@ theorem layout_refines_asm_includes_partial {num : Nat → Bytes → Nat} (hinj 
             rw [Layout.layout_eq p (by rw [hp1]; simp)]
             exact hp2
 
+/-- the run of a project with `.include` (file-local names) against the reference, with the placement of every
+statement (the common core of the theorems below) -/
+theorem run_sim_includes {num : Nat → Bytes → Nat} (hinj : NumInj num) (fs : Bytes → Option Bytes)
+    (main data : Bytes) (hfs : fs main = some data) (hloc : LocalProject fs maxDepth main data) (o : Outcome)
+    (h : run fs main = .done o) (hs : o.success = true) :
+    ∃ (els : List Element) (perr : Option ParseErr) (p : List Layout.Stmt) (E : Layout.Env) (t : Table) (n : Nat)
+      (im' : Layout.Img),
+      parseFile data = .ok (els, perr) ∧
+      EnvRel (num 0) t E ∧ FlatEls num fs encoder E 0 main t 1 none els p n ∧
+      (∀ s ∈ p, s.wf = true) ∧ Layout.Ref.pass2 none [] p = some im' ∧ (∀ a, Map.abs o.image a = im'.get a) ∧
+      (∀ q s r, p = q ++ s :: r → s.emits = true →
+        ∃ x, Layout.Ref.cursorAfter none q = some x ∧
+          ∀ i, i < (Layout.Ref.bytes x s).length → im'.get (x + i) = (Layout.Ref.bytes x s)[i]?) := by
+  have henc := encoder_len
+  unfold run runWith at h
+  rw [hfs] at h
+  simp only at h
+  cases haf : assembleFile fs encoder maxDepth Env.init St.init data main with
+  | stop r => rw [haf] at h; cases r <;> cases h
+  | ok pr =>
+    obtain ⟨st, res⟩ := pr
+    rw [haf] at h
+    simp only at h
+    have hmd : maxDepth = 63 + 1 := rfl
+    rw [hmd] at hloc
+    rw [hmd, assembleFile] at haf
+    simp only [Env.init, List.length_cons, List.length_nil, Nat.zero_add, Nat.add_one_ne_zero, if_false,
+      enterFile_false good_init, ne_eq, not_true_eq_false] at haf
+    have hinc : IncOk (assembleFile fs encoder 63) := fun env st data path g => assembleFile_safe henc fs 63 true env st data path g
+    cases hfb : fileBody fs encoder (assembleFile fs encoder 63) ⟨[main], main⟩ data st2 with
+    | stop r => simp only [st2] at hfb; rw [hfb] at haf; cases haf
+    | ok q =>
+      obtain ⟨st4, res4⟩ := q
+      have hfb0 := hfb
+      simp only [st2] at hfb
+      rw [hfb] at haf
+      simp only [Out.ok.injEq, Prod.mk.injEq] at haf
+      obtain ⟨hst, _⟩ := haf
+      have hseg : st.seg = st4.seg := by rw [← hst]; rfl
+      have herrs : st.errors = st4.errors := by rw [← hst]; rfl
+      have hglob : st.globalTasks = st4.globalTasks := by rw [← hst]; rfl
+      cases hcl : Seg.closeSegment st.seg with
+      | mk s' oc =>
+        rw [hcl] at h
+        cases oc with
+        | diag e => simp only at h; cases h; simp [Outcome.success] at hs
+        | panic => cases h
+        | placed x =>
+          exfalso
+          have g4 := ((fileBody_safe henc hinc (env := ⟨[main], main⟩) rfl fs data good_st2).2 _ _ hfb0).1
+          have := (Seg.close_spec (s := st.seg) (by rw [hseg]; exact g4.inv)).1
+          rw [hcl] at this; cases this
+        | ok =>
+          simp only at h
+          cases hfz : finalize encoder Env.init { st with seg := s' } with
+          | stop r => rw [hfz] at h; cases r <;> cases h
+          | ok z =>
+            obtain ⟨st', fin⟩ := z
+            rw [hfz] at h
+            simp only [Result.done.injEq] at h
+            subst h
+            have hfin : fin = true := by simpa [Outcome.success] using hs
+            have hfg := finalize_grew hfz
+            have herr' : st'.errors = [] := hfg.2.mp hfin
+            have herr0 : st.errors = [] := by
+              have := hfg.1; rw [herr'] at this
+              exact List.eq_nil_of_length_eq_zero (by simpa using this)
+            have herr4 : st4.errors = [] := by rw [← herrs]; exact herr0
+            -- the main file against the layout core
+            obtain ⟨els, perr, tt, p, l3, l4, id', hparse, _, _, hm, hrt, g4, r4, _, e2, _, _, _, hwf, _, hflat⟩ :=
+              fileBody_sim (num := num) hinj henc fs (assembleFile fs encoder 63) (LocalProject fs 63)
+                (assembleFile_sim hinj henc fs 63) hinc (assembleFile_grew fs encoder 63) (assembleFile_rel fs encoder 63)
+                ⟨[main], main⟩ main [] rfl data 0 st2 st4 res4 {} hloc good_st2 ⟨fun _ => rfl, rfl⟩ rfl rfl rfl
+                (fun _ _ _ => rfl) hfb0 herr4
+            -- close
+            obtain ⟨l5, c1, c2, _, _⟩ := close_sim g4.inv r4
+            rw [← hseg, hcl] at c2
+            simp only at c2
+            -- finalize with an empty global queue
+            have hgl : st.globalTasks = [] := by rw [hglob, e2]; rfl
+            have hst' : st'.seg = s' := by
+              unfold finalize at hfz
+              simp only [hgl, rounds, globalLoop, List.isEmpty_nil, if_true] at hfz
+              cases hfz
+              rfl
+            -- the reference
+            have rel0 : Layout.Rel ({} : Layout.State) ([] ++ ({} : Layout.State).tasks) none [] := Layout.rel_init
+            obtain ⟨im', p2, rel3, _, hpl⟩ := Layout.mrun_placed hm [] none [] rel0 hwf
+            have rel3' : Layout.Rel (withTasks [] l3) ([] ++ l3.tasks) (Layout.Ref.cursorAfter none p) im' := rel3.congr rfl rfl
+            obtain ⟨rel4, he4, _⟩ := Layout.runTasks_rel_frame [] l3.tasks _ l4 _ im' rel3' hrt
+            obtain ⟨l5', c1', _, _, _, _, hg, _⟩ := Layout.closeSeg_spec l4 rel4.core
+            rw [c1] at c1'; cases c1'
+            have himg : ∀ a, Map.abs st'.seg.map a = im'.get a := by
+              intro a
+              rw [hst', c2.1 a, hg a]
+              exact rel4.agree a (fun _ ht => by cases ht)
+            have hp2 : Layout.Ref.pass2 none [] p = some im' := by
+              have := p2 []
+              simp only [List.append_nil, Layout.Ref.pass2] at this
+              exact this
+            obtain ⟨hE, hF⟩ := hflat l4.env (fun _ _ _ _ => rfl)
+            exact ⟨els, perr, p, l4.env, tt, id', im', hparse, hE, hF, hwf, hp2, himg, hpl⟩
+
+/-- C05 (no placeholder survives; every statement's bytes at its address — projects with `.include`, file-local names) and
+C08 (pipeline clause across include boundaries).  In the image of a successful run EVERY emitting statement `s` of the
+flattened program (an instruction, `.du*`, `.dstr/.dhex/.dfile`, the padding of `.align`, of whichever file) stands with
+its reference bytes at its reference address — in particular every statement that was written as 0xBE… when it was met
+and rewritten when ITS file ended.  Moreover `s` is the abstraction `absStmt … t' c' el` of a source statement `el` of
+some file instance over that instance's FINAL table `t'` (= the reference's final table `E` at that instance): its bytes
+`Ref.bytes c s` are a function of the statement, its address and its file's final table only.  Hence a statement emits
+the same bytes whether the constants it uses are defined above it or below it in its file, before or after an
+`.include` statement of that file, with any amount of code of other files in between (the address, which `Ref.pass1`
+computes from sizes alone, is the same).  PARTIAL: file-local names only (`LocalProject`); "defined in another file"
+needs `.global/.import/.export` (stage 2/3). -/
+theorem every_statement_placed_asm_includes_partial {num : Nat → Bytes → Nat} (hinj : NumInj num) (fs : Bytes → Option Bytes)
+    (main data : Bytes) (hfs : fs main = some data) (hloc : LocalProject fs maxDepth main data) (o : Outcome)
+    (h : run fs main = .done o) (hs : o.success = true) :
+    ∃ (els : List Element) (perr : Option ParseErr) (p : List Layout.Stmt) (E : Layout.Env) (t : Table) (n : Nat),
+      parseFile data = .ok (els, perr) ∧ EnvRel (num 0) t E ∧ FlatEls num fs encoder E 0 main t 1 none els p n ∧
+      ∀ q s r, p = q ++ s :: r → s.emits = true →
+        (∃ c, Layout.Ref.cursorAfter none q = some c ∧
+          ∀ i, i < (Layout.Ref.bytes c s).length → Map.abs o.image (c + i) = (Layout.Ref.bytes c s)[i]?) ∧
+        ∃ id' path' t' c' el, EnvRel (num id') t' E ∧ isInclude el = false ∧
+          s = absStmt (num id') fs encoder path' t' c' el := by
+  obtain ⟨els, perr, p, E, t, n, im', h1, h2, h3, _, _, h6, h7⟩ := run_sim_includes hinj fs main data hfs hloc o h hs
+  refine ⟨els, perr, p, E, t, n, h1, h2, h3, fun q s r hp hse => ⟨?_, ?_⟩⟩
+  · obtain ⟨x, hx, hb⟩ := h7 q s r hp hse
+    exact ⟨x, hx, fun i hi => by rw [h6]; exact hb i hi⟩
+  · exact h3.source h2 s (by rw [hp]; simp)
+
 /-! ### non-vacuity -/
 
 /-- a decidable form of `LocalProject` -/
@@ -272,5 +402,23 @@ example : Layout.Ref.layout [.addr 16, .emit 2 [1] [0x00, 0xE0], .emit 2 [2] [0x
       some [(18, 0x15), (19, 0x00), (16, 0x00), (17, 0xE0)] ∧
     Layout.Ref.pass1 none [] [.addr 16, .emit 2 [1] [0x00, 0xE0], .emit 2 [2] [0x15, 0x00], .label 2, .label 1] =
       some [(1, 20), (2, 20)] := ⟨by rfl, by rfl⟩
+
+/-- `every_statement_placed_asm_includes_partial` applies to the project as well -/
+example : ∃ o, run exFs (bytesOf "m") = .done o ∧
+    ∃ (p : List Layout.Stmt), ∀ q s r, p = q ++ s :: r → s.emits = true →
+      ∃ c, Layout.Ref.cursorAfter none q = some c ∧
+        ∀ i, i < (Layout.Ref.bytes c s).length → Map.abs o.image (c + i) = (Layout.Ref.bytes c s)[i]? := by
+  have hr := exProject_run
+  cases hrun : run exFs (bytesOf "m") with
+  | done o =>
+    rw [hrun] at hr
+    simp only [Bool.and_eq_true] at hr
+    obtain ⟨_, _, p, _, _, _, _, _, _, h4⟩ :=
+      every_statement_placed_asm_includes_partial exNum2_inj exFs (bytesOf "m") exMainText rfl exProject_local o hrun hr.1.1
+    exact ⟨o, rfl, p, fun q s r hp hs => (h4 q s r hp hs).1⟩
+  | noMain => rw [hrun] at hr; cases hr
+  | panic => rw [hrun] at hr; cases hr
+  | fuel => rw [hrun] at hr; cases hr
+  | loop => rw [hrun] at hr; cases hr
 
 end Trion.Asm
